@@ -198,6 +198,17 @@ func (c *Ctx) Violation(key, what string, witness interface{}) {
 	v.Count++
 }
 
+// ViolationSummaries returns "key: what" for every recorded violation.
+func (c *Ctx) ViolationSummaries() []string {
+	c.mu.Lock()
+	defer c.mu.Unlock()
+	out := []string{}
+	for _, k := range c.order {
+		out = append(out, k+": "+Short(c.violations[k].What, 400))
+	}
+	return out
+}
+
 func (c *Ctx) Violations() int {
 	c.mu.Lock()
 	defer c.mu.Unlock()
